@@ -108,7 +108,9 @@ CHECKS = {
             'Deductive proof over the reals on the real bodies of the sphere-plane and sphere-sphere colliders: a contact is reported '
             'exactly when the signed surface distance is within the margin, dist is that distance, the normal is the unit plane normal / '
             'points from geom 1 to geom 2, pos is the midpoint of the two surface points; and mju_makeFrame builds an orthonormal frame whose '
-            'first row is the normalised normal when the tangent is left undefined (as all primitive colliders do).',
+            'first row is the normalised normal when the tangent is left undefined (as all primitive colliders do); sphere-capsule: the point of the capsule axis '
+            'segment the collider uses is the nearest one to the sphere centre (quadratic along the unit axis, minimised by the clamped projection), the contact '
+            'is reported exactly when that distance is within reach and dist is the gap between the two surfaces; getMargin / getGap select the pair or geom values.',
             'Trusted: VC generator, clang, z3/cvc5; doubles as reals, sqrt abstraction. Not covered (listed): capsule/cylinder/box colliders, '
             'mj_geomDistance, GJK/EPA; mju_makeFrame with a supplied tangent.',
             'contracts + symbolic execution of the real bodies, z3/cvc5 NRA'),
